@@ -1,1 +1,2 @@
 #[cfg(any(not(verif_select), verif_gl))] #[path = "/verif/harness/ntpd/gl_probe_config_source.rs"] pub(crate) mod gl;
+#[cfg(any(not(verif_select), verif_gt))] #[path = "/verif/harness/ntpd/gt_probe_config_source.rs"] pub(crate) mod gt;
